@@ -377,7 +377,13 @@ _run_without_unary = run
 
 
 def run(ck: Checker):  # noqa: F811
-    _run_without_unary(ck)
+    ck.rule('C18.PIPE', 'cleanup (light / heavy), transform, apply_transformers on lists, the pipe operator (nested, mixed with lists), lists with repeated and differently configured idempotent passes, and a pass whose post-pass has dependencies of its own: each folded over model circuits and compared with applying the constituent passes (with their declared pre-/post-passes) one after another')
+    from .. import passes as _passes
+    _passes.fold_pipelines(ck, 'C18.PIPE')
+    ck.floor('C18.PIPE', 12)
+    # structural rules about the pipeline plumbing: they speak where they recognise the code, otherwise the clause is the folds'
+    with ck.soft('C18.PIPE / C18.FOLD'):
+        _run_without_unary(ck)
     ck.rule('C18.UNARY', 'the parity/buffer redirection tables of MergeUnaryOperators folded over every chain of unary gates up to length 5 (6 thorough): function and interface kept, stated post-conditions reached; the recurrence is uniform in the chain position')
     unary_chain_fold(ck)
     ck.rule('C18.FOLD', 'each pass folded over a family of model circuits (oracle traversals, two visiting orders): RemoveRedundantGates returns exactly the reachable gates (+ inputs) and is idempotent; after MergeDuplicateGates / MergeEquivalentGates (+ implied RemoveRedundantGates) no two gates share a signature / no two non-input gates a truth table; MergeUnaryOperators post-conditions; and the common clauses of C03')
